@@ -28,15 +28,25 @@ def build(variant):
         print("ENGINE-ERROR: harness build failed for variant", variant); print(r.stdout[-6000:]); sys.exit(2)
     return bld
 
+VG_RE = re.compile(r"^==\d+== ((?:Invalid (?:read|write|free)|Conditional jump or move depends on uninitialised|Use of uninitialised value|Syscall param .* uninitialised|Mismatched free|Source and destination overlap|Argument .* of function .* has a fishy).*)$")
+
+VG_FRAME = re.compile(r"^==\d+==    (?:at|by) 0x[0-9A-Fa-f]+: (.*)$")
+
 def parse_log(path):
     """sanitizer reports attributed to the preceding @@CASE marker; returns (reports, last_case)"""
-    reports = []; last = None
+    reports = []; last = None; vg_open = False
     try:
         with open(path, errors="replace") as f:
             for line in f:
                 if line.startswith("@@CASE "): last = line[7:].strip()
                 elif "ERROR: AddressSanitizer" in line or "runtime error:" in line or "ERROR: LeakSanitizer" in line or "WARNING: ThreadSanitizer" in line:
                     reports.append((last, line.strip()[:300]))
+                elif last is not None and VG_RE.match(line):      # valgrind memcheck error header (after the first case marker: MPI start-up noise is not ours)
+                    reports.append((last, "memcheck: " + VG_RE.match(line).group(1).strip()[:200])); vg_open = True
+                elif vg_open and VG_FRAME.match(line):
+                    fr = VG_FRAME.match(line).group(1)
+                    if "Pomerol::" in fr: reports[-1] = (reports[-1][0], reports[-1][1] + " in " + fr[:160]); vg_open = False
+                elif vg_open and re.match(r"^==\d+== *$", line): vg_open = False
     except FileNotFoundError:
         pass
     return reports, last
@@ -70,7 +80,8 @@ def main():
     env["OMPI_ALLOW_RUN_AS_ROOT"] = "1"; env["OMPI_ALLOW_RUN_AS_ROOT_CONFIRM"] = "1"; env["OMPI_MCA_btl"] = "self,vader"
     env["OMP_NUM_THREADS"] = env.get("OMP_NUM_THREADS", "1")
     jobs = []
-    for (variant, engine, check, shards, extra) in runs:
+    for run in runs:
+        (variant, engine, check, shards, extra) = run[:5]; wrap = run[5] if len(run) > 5 else None
         exe = os.path.join(blds[variant], "hx", engine)
         nsh = 1 if args.match else shards
         for s in range(nsh):
@@ -78,7 +89,11 @@ def main():
             rot = (s + seed) % nsh   # the seed only rotates which shard index a process takes; the union is seed-independent
             cmd = [exe, check, "--tier", tier, "--shard", "%d/%d" % (rot, nsh), "--out", out, "--deadline", str(deadline)] + list(extra)
             if args.match: cmd += ["--match", args.match]
-            jobs.append(dict(cmd=cmd, out=out, log=log, variant=variant, check=check, shard=rot))
+            if wrap == "memcheck":   # valgrind memcheck on the uninstrumented build: uninitialised-value use, which the sanitizer builds cannot see
+                cmd = ["valgrind", "-q", "--error-exitcode=0", "--num-callers=30", "--suppressions=/usr/share/openmpi/openmpi-valgrind.supp",
+                       "--suppressions=" + os.path.join(ROOT, "bin", "memcheck.supp")] + cmd
+                out2 = out  # same result file
+            jobs.append(dict(cmd=cmd, out=out, log=log, variant=variant + ("+memcheck" if wrap else ""), check=check, shard=rot))
     running = []; pending = list(jobs)
     while pending or running:
         while pending and len(running) < NCPU:
@@ -175,8 +190,8 @@ def main():
             e = viols.setdefault(key, dict(key=key, what=line, case=case or "?", count=0, variant=variant, check=(case or "?").split(" ")[0])); e["count"] += 1
     if plan.get("sanitizer_is_violation"):
         for (variant, case, line) in san_reports:
-            m = re.search(r"(AddressSanitizer: [a-z\-]+|runtime error: [^\n]{0,80})", line); kind = m.group(1) if m else "sanitizer report"
-            site = re.search(r"(/repo/[^ :]+:\d+)", line)
+            m = re.search(r"(AddressSanitizer: [a-z\-]+|runtime error: [^\n]{0,80}|memcheck: [^\n]{0,60})", line); kind = m.group(1) if m else "sanitizer report"
+            site = re.search(r"(/repo/[^ :]+:\d+| in Pomerol::[^(]+)", line)
             key = "C17:%s:%s" % (kind, site.group(1) if site else "?")
             e = viols.setdefault(key, dict(key=key, what=line, case=case or "?", count=0, variant=variant, check=(case or "?").split(" ")[0]))
             e["count"] += 1
